@@ -144,3 +144,75 @@ Lemma kept_ca_refuted :
 Proof.
   vm_compute. repeat split; auto. intros [H|[]]; discriminate.
 Qed.
+(* every published key is a pre-listed one or the key of a loaded signer *)
+Definition P (c : cfg) (s : state) : Prop :=
+  forall k, In k (pubkeys s) -> In k (extra_pubkeys c) \/ In k (loaded_keys s).
+
+Lemma In_add_key k x l : In k (add_key x l) -> In k l \/ k = x.
+Proof.
+  unfold add_key. destruct (mem x l); [auto|]. intros H. apply in_app_or in H. destruct H as [H|[H|[]]]; auto.
+Qed.
+
+Lemma unseal_P c s p : signer s = None -> ed s = None -> P c s -> P c (fst (unseal_ca c s p)).
+Proof.
+  intros Hs He HP. unfold unseal_ca. rewrite Hs. simpl.
+  destruct (bs_eqb p (right_pass c)); simpl; [|exact HP].
+  destruct (ed_file c) as [[[pe e] r]|] eqn:Ee.
+  - destruct (bs_eqb p pe); simpl; [|exact HP].
+    destruct (file_ok r); simpl; [|exact HP].
+    destruct (main_ok c); simpl; [|exact HP].
+    destruct (role_ok c); simpl; [|exact HP].
+    intros k Hk. unfold loaded_keys. simpl. unfold add_pubkeys in Hk. simpl in Hk.
+    apply In_add_key in Hk. destruct Hk as [Hk|Hk]; [|right; simpl; auto].
+    apply In_add_key in Hk. destruct Hk as [Hk|Hk]; [|right; simpl; auto].
+    destruct (HP k Hk) as [A|A]; [left; exact A|]. unfold loaded_keys in A. rewrite Hs, He in A. destruct A.
+  - destruct (main_ok c); simpl; [|exact HP].
+    destruct (role_ok c); simpl; [|exact HP].
+    intros k Hk. unfold loaded_keys. simpl. unfold add_pubkeys in Hk. simpl in Hk. rewrite He in Hk.
+    apply In_add_key in Hk. destruct Hk as [Hk|Hk]; [|right; rewrite He; simpl; auto].
+    destruct (HP k Hk) as [A|A]; [left; exact A|]. unfold loaded_keys in A. rewrite Hs, He in A. destruct A.
+Qed.
+
+Lemma inject_JP c s r : J c s /\ P c s -> J c (fst (inject c s r)) /\ P c (fst (inject c s r)).
+Proof.
+  intros [HJ HP]. split; [apply inject_J, HJ|].
+  unfold inject, inject_with.
+  destruct (i_tls r); simpl; [|exact HP].
+  destruct (i_chain r); simpl; [|exact HP]. destruct (i_leaf r) as [leaf|]; simpl; [|exact HP].
+  destruct (i_field r) as [p|]; [|exact HP].
+  destruct HJ as [[Hs [He Hc]]|[Hs _]].
+  - pose proof (unseal_P c s p Hs He HP) as H. destruct (unseal_ca c s p) as [s' ok]. exact H.
+  - unfold unseal_ca. rewrite Hs. simpl. exact HP.
+Qed.
+
+Lemma inject_all_JP c l : forall s, J c s /\ P c s -> J c (inject_all c s l) /\ P c (inject_all c s l).
+Proof. induction l as [|r rest IH]; intros s H; simpl; [exact H|apply IH, inject_JP, H]. Qed.
+
+Lemma pubkeys_listed_or_loaded c l :
+  let s := inject_all c (sealed_init c) l in
+  forall k, In k (pubkeys s) -> In k (extra_pubkeys c) \/ In k (ca_ders s).
+Proof.
+  intros s k Hk.
+  assert (H : J c s /\ P c s).
+  { apply inject_all_JP. split; [apply sealed_init_J|]. intros k' Hk'. left. exact Hk'. }
+  destruct H as [_ HP]. destruct (ca_ders_loaded c l) as [E _]. fold s in E. rewrite E. apply HP, Hk.
+Qed.
+
+Lemma mem_of_In k l : In k l -> mem k l = true.
+Proof. intros H. unfold mem. apply existsb_exists. exists k. split; [exact H|apply N.eqb_refl]. Qed.
+
+(* the predicate the case file evaluates on observed runs is never true of the model's own observation, when
+   keymaster_public_keys_filename lists nothing (as in the life cases) *)
+Lemma life_predicate_sound d before last :
+  extra_pubkeys (cy_cfg last) = [] ->
+  let s := life d before last in
+  life_case_violates (is_some (signer s), pubkeys s, ca_ders s, is_some (signer s)) = false.
+Proof.
+  intros Hx s. unfold s. rewrite life_is_last. unfold life_case_violates.
+  set (c := cy_cfg last). set (s' := inject_all c (sealed_init c) (cy_ops last)).
+  destruct (is_some (signer s')) eqn:Es; [|reflexivity]. simpl.
+  rewrite orb_false_r. apply negb_false_iff. unfold subset. apply forallb_forall. intros k Hk.
+  destruct (pubkeys_listed_or_loaded c (cy_ops last) k Hk) as [A|A].
+  - fold c in Hx. rewrite Hx in A. destruct A.
+  - apply mem_of_In, A.
+Qed.
